@@ -19,7 +19,9 @@ from vlib.tol import close, describe
 
 import menpo.landmark.labels as ML
 from menpo.landmark import LabellingError
-from menpo.shape import PointCloud, TriMesh, LabelledPointUndirectedGraph
+from menpo.shape import PointCloud, TriMesh, LabelledPointUndirectedGraph, PointUndirectedGraph, PointDirectedGraph
+from menpo.image import Image
+from menpo.landmark import labeller as menpo_labeller
 
 PROPERTY = "C15"
 RULE = (
@@ -27,12 +29,23 @@ RULE = (
     "names, every point first assigned one label then extra memberships added, any weighted edge set) with 3..6 "
     "operations each (with_labels / without_labels over drawn label subsets given in original order, shuffled, "
     "with duplicates, as str; get_label; add_label with fresh and existing names; remove_label incl. orphaning "
-    "removals); a graph case is non-trivial when it has >= 2 labels, some point lies under >= 2 labels and a "
-    "selection keeps a proper non-empty subset of the labels. Hash-seed clause: batches of 25..35 such cases are "
+    "removals; inherited from_mask with any boolean vector; label lists also as tuples); a graph case is non-trivial "
+    "when it has >= 2 labels, some point lies under >= 2 labels and a selection keeps a proper non-empty subset of the "
+    "labels. After every operation - answered or refused - the group it was called on is re-read (deep digest, and the "
+    "ORDER of labels / tojson), and every component of the result is written to (points, adjacency data, masks) to show "
+    "it shares nothing with that group. Constructors: the same case through every documented route (dense / csr "
+    "adjacency, index lists / arrays in any order with repeats, edge lists in either orientation, indices_to_masks, "
+    "init_from_edges, init_with_all_label) and its non-covering variant. Chains: 4..9 operations described relative to "
+    "the group they meet (label positions mod #labels, point indices mod #points) folded over one evolving group. "
+    "Hash-seed clause: batches of 25..35 such cases are "
     "re-executed in separate interpreters with PYTHONHASHSEED 0,1,2,3 (8 values in the thorough tier). Labellers: "
-    "every index-based labeller found by introspection x input kind (ndarray, PointCloud, labelled graph, TriMesh "
-    "for the trimesh families) x 2-D/3-D as a full grid plus Hypothesis-drawn point sets and transforms; distinct = "
-    "distinct canonical-JSON digest of the case"
+    "every index-based labeller found by introspection x input kind (ndarray, PointCloud, undirected / directed point "
+    "graph, labelled graph with and without a label spanning all points, TriMesh for the trimesh families) x 2-D/3-D "
+    "as a full grid plus Hypothesis-drawn cases; point sets are pairwise distinct and come in four layouts (unordered "
+    "lattice; one coordinate monotone in the index, either axis and direction; runs of consecutive indices in separate "
+    "boxes; row-major grid), transforms are the homogeneous family plus axis-reversing ones (reflection, half turn, "
+    "inversion, negative scale, signed axis permutation); labeller(landmarkable, group, f) on Image / PointCloud hosts; "
+    "distinct = distinct canonical-JSON digest of the case"
 )
 ASSUMPTIONS = [
     "a selection that keeps no label at all (with_labels([]), without_labels(all labels)) is outside the property: "
@@ -40,7 +53,13 @@ ASSUMPTIONS = [
     "a selection / get_label whose point set is empty may be refused with ValueError (a graph needs a vertex) or "
     "answered with the empty model; both are accepted",
     "without_labels(S) with names in S that are not labels: the complement model or ValueError are both accepted",
-    "with_labels(S): label order of the result is asserted only when S is given in original relative order",
+    "with_labels(S): the label order of the result must be the original order when S is given in original relative "
+    "order; for a request in another order the request order and the original order are both accepted (and must not "
+    "vary with the hash seed)",
+    "constructors: an edge list handed to init_from_indices_mapping has >= 3 rows (two rows cannot be told from a 2 x 2 "
+    "adjacency matrix), adjacency is given dense or, to the plain constructor, as csr_matrix; edge lists carry no weights",
+    "result aliasing of the label masks is observed through _labels_to_masks (no public accessor hands out the masks)",
+    "labeller(): the host is a 2-D Image or a PointCloud, the source group a PointCloud / point graph / labelled graph",
     "add_label on a name that already exists: ValueError when a point would lose its only label; otherwise either a "
     "refusal or the group with that label's mask replaced (position of the label not asserted)",
     "get_label / remove_label of unknown names and out-of-range add_label indices are not generated",
@@ -49,7 +68,8 @@ ASSUMPTIONS = [
     "edge weights are part of an edge: the induced edges must keep them",
 ]
 
-OPNAME = {"with": "with_labels", "without": "without_labels", "get": "get_label", "add": "add_label", "remove": "remove_label"}
+OPNAME = {"with": "with_labels", "without": "without_labels", "get": "get_label", "add": "add_label", "remove": "remove_label",
+          "mask": "from_mask"}
 
 # =============================================================================================
 # generators: labelled graphs and operations
@@ -95,6 +115,127 @@ def lattice_points(rs, n, d, extent=10.0):
     return pts
 
 
+LAYOUTS = ["lattice", "monotone", "blocks", "grid"]
+
+
+def layout_points(layout, n, d, extent=10.0):
+    """n pairwise distinct points whose POSITION may depend on the INDEX, as it does in every real annotation:
+      lattice   no relation (jittered lattice cells in random order)
+      monotone  one coordinate strictly increasing (or decreasing) with the index, the others unrelated
+      blocks    runs of consecutive indices (first run ``start`` points, then ``block`` points each) sit in separate
+                boxes; ``sorted``: the boxes are in non-decreasing (``flip``: non-increasing) order along ``axis``
+      grid      row-major ``cols``-column grid laid on the axes (axis, axis+1), either direction
+    layout = {"kind", "seed", "axis", "flip", "block", "start", "sorted", "cols"} (plain data)."""
+    rs = np.random.RandomState(layout["seed"])
+    kind = layout["kind"]
+    if kind == "lattice" or n == 0:
+        return lattice_points(rs, n, d, extent)
+    axis = layout["axis"] % d
+    sign = -1.0 if layout["flip"] else 1.0
+    if kind == "monotone":
+        pts = lattice_points(rs, n, d, extent)
+        jit = rs.randint(-300, 301, size=n)
+        step = extent / n
+        for i in range(n):
+            pts[i][axis] = float(sign * (i + 0.5 + int(jit[i]) / 1000.0) * step)
+        return pts
+    if kind == "blocks":
+        b = max(1, layout["block"])
+        start = 1 + (layout["start"] % b)
+        sizes = [min(start, n)]
+        while sum(sizes) < n:
+            sizes.append(min(b, n - sum(sizes)))
+        nb = len(sizes)
+        side = max(2, int(np.ceil(nb ** (1.0 / d))) + 1)
+        cell = extent / side
+        cells = [int(c) for c in rs.permutation(side**d)[:nb]]
+        corners = []
+        for c in cells:
+            idx = []
+            for _ in range(d):
+                idx.append(c % side)
+                c //= side
+            corners.append([(idx[a] + 0.25) * cell for a in range(d)])
+        if layout["sorted"]:
+            corners.sort(key=lambda c: sign * c[axis])
+        pts = []
+        for corner, size in zip(corners, sizes):
+            for q in lattice_points(rs, size, d, extent=0.5 * cell):  # the central half of the block's own cell
+                pts.append([float(corner[a] + q[a]) for a in range(d)])
+        return pts
+    cols = max(1, layout["cols"])
+    rows = (n + cols - 1) // cols
+    step = extent / max(rows, cols)
+    other = lattice_points(rs, n, d, extent)
+    jit = rs.randint(-300, 301, size=(n, 2))
+    a0, a1 = axis, (axis + 1) % d
+    pts = []
+    for i in range(n):
+        row = other[i]
+        row[a0] = float(sign * (i // cols + 0.5 + int(jit[i][0]) / 1000.0) * step)
+        row[a1] = float((i % cols + 0.5 + int(jit[i][1]) / 1000.0) * step * (-1.0 if layout["sorted"] else 1.0))
+        pts.append(row)
+    return pts
+
+
+def s_layout():
+    return st.fixed_dictionaries({
+        "kind": st.sampled_from(LAYOUTS), "seed": st.integers(0, 2**20), "axis": st.integers(0, 2), "flip": st.booleans(),
+        "block": st.integers(2, 9), "start": st.integers(0, 8), "sorted": st.booleans(), "cols": st.integers(2, 12),
+    })
+
+
+def rand_layout(rs, kind):
+    return {"kind": kind, "seed": int(rs.randint(0, 2**20)), "axis": int(rs.randint(0, 3)), "flip": bool(rs.randint(0, 2)),
+            "block": int(rs.randint(2, 10)), "start": int(rs.randint(0, 9)), "sorted": bool(rs.randint(0, 2)),
+            "cols": int(rs.randint(2, 13))}
+
+
+def reversing_tcase(d, form, axis, k, t, signs):
+    """Transforms that turn coordinate axes round: reflection of one axis, half turn in a coordinate plane, point
+    inversion, negative (non-uniform) scale, signed axis permutation with integer scale and shift. All are exact in
+    binary except the half turn given as a Rotation (angle pi)."""
+    axis = axis % d
+    if form == "negative_scale":
+        s = [float(v) for v in signs[:d]]
+        s[axis] = -abs(s[axis])
+        return {"kind": "NonUniformScale", "d": d, "s": s, "form": form}
+    if form == "half_turn_rotation":
+        ang = [0.0] * gen.n_planes(d)
+        ang[axis % len(ang)] = float(np.pi)
+        return {"kind": "Rotation", "d": d, "rot": {"angles": ang, "reflect": False}, "form": form}
+    lin = np.eye(d, dtype=int)
+    if form == "reflect_axis":
+        lin[axis, axis] = -1
+    elif form == "half_turn":
+        lin[axis, axis] = -1
+        lin[(axis + 1) % d, (axis + 1) % d] = -1
+    elif form == "inversion":
+        lin = -lin
+    else:  # signed permutation
+        perm = [(i + 1 + axis) % d for i in range(d)]
+        lin = np.zeros((d, d), dtype=int)
+        for i in range(d):
+            lin[i, perm[i]] = -1 if signs[i] < 0 else 1
+        if all(signs[i] >= 0 for i in range(d)):
+            lin[0] = -lin[0]
+    lin = lin * int(k)
+    rows = [[int(v) for v in lin[i]] + [int(t[i])] for i in range(d)] + [[0] * d + [1]]
+    return {"kind": "Affine", "d": d, "imat": rows, "form": form}
+
+
+REVERSING_FORMS = ["reflect_axis", "half_turn", "inversion", "negative_scale", "half_turn_rotation", "signed_permutation"]
+
+
+@st.composite
+def s_tcase(draw, d):
+    if draw(st.integers(0, 2)) < 2:
+        return draw(objs.homog_case(d=d, kinds=T_KINDS))
+    return reversing_tcase(d, draw(st.sampled_from(REVERSING_FORMS)), draw(st.integers(0, 2)), draw(st.integers(1, 3)),
+                           draw(st.lists(st.integers(-5, 5), min_size=3, max_size=3)),
+                           draw(st.lists(gen.qnz(-4, 4, 0.25), min_size=3, max_size=3)))
+
+
 def _pair(code, n):
     """code in [0, n(n-1)/2) -> (i, j) with i < j."""
     i = 0
@@ -107,9 +248,13 @@ def _pair(code, n):
 @st.composite
 def s_op(draw, names, n):
     k = len(names)
-    kind = draw(st.sampled_from(["with", "with", "without", "without", "get", "add", "remove"]))
+    kind = draw(st.sampled_from(["with", "with", "with", "without", "without", "without", "get", "get", "add", "add",
+                                 "remove", "remove", "mask"]))
     if kind == "without" and k == 1:
         kind = "with"
+    if kind == "mask":
+        # inherited structural selection: a labelled group masked by an arbitrary boolean vector
+        return {"op": "mask", "mask": draw(st.lists(st.booleans(), min_size=n, max_size=n))}
     if kind in ("with", "without"):
         sub = draw(st.lists(st.integers(0, k - 1), min_size=1, max_size=k, unique=True))
         if kind == "without" and len(sub) == k:
@@ -123,7 +268,8 @@ def s_op(draw, names, n):
             labels.insert(draw(st.integers(at, len(labels))), labels[at])
         if draw(st.sampled_from([0] * 9 + [1])):
             labels.insert(draw(st.integers(0, len(labels))), fresh_name(draw(s_name()), names))
-        return {"op": kind, "labels": labels, "as_str": len(labels) == 1 and draw(st.booleans())}
+        form = draw(st.sampled_from(["list", "list", "tuple", "str"]))
+        return {"op": kind, "labels": labels, "as_str": len(labels) == 1 and form == "str", "as_tuple": form == "tuple"}
     if kind in ("get", "remove"):
         return {"op": kind, "label": names[draw(st.integers(0, k - 1))]}
     if draw(st.sampled_from([0] * 4 + [1])):
@@ -220,6 +366,16 @@ def compare(ctx, case, op, spec, res):
                 "%s.label_order" % tag,
                 lambda: "original order %r, op %r\n got labels %r\nwant labels %r" % ([l for l, _ in case["labels"]], op, gl, wl),
             )
+        elif "alt_order" in spec:
+            # labels requested out of their original order: the statement says "in their original order", the
+            # docstring nothing; the order of the request and the original order are the two defensible answers
+            # (which of them, identically for every hash seed, is checked by the hashseed clauses)
+            ctx.event("%s:order_request_or_original" % tag)
+            ctx.expect(
+                gl == wl or gl == spec["alt_order"],
+                "%s.label_order_neither_request_nor_original" % tag,
+                lambda: "original order %r, op %r\n got labels %r" % ([l for l, _ in case["labels"]], op, gl),
+            )
         else:
             ctx.event("%s:order_not_asserted" % tag)
         gm = dict(zip(gl, got["masks"]))
@@ -283,15 +439,10 @@ def check_graph_case(case, ctx, derive=False):
         else:
             case_ref = case
         before = digest(g)
+        pub_before = RL.public_labels(g)
         r, res = RL.apply_op(g, op)
-        after = digest(g)
         tag = OPNAME[op["op"]]
-        dd = parameter_mutation(before, after)
-        ctx.expect(
-            dd is None,
-            "%s.receiver_mutated" % tag,
-            lambda: "op %r on labels %r: %r" % (op, case["labels"], dd),
-        )
+        check_receiver(ctx, g, before, pub_before, tag, op, case, "err" in res)
         case_saved, case = case, case_ref
         spec = RL.ref_op(case, op)
         compare(ctx, case, op, spec, res)
@@ -302,14 +453,300 @@ def check_graph_case(case, ctx, derive=False):
             ctx.expect(np.array_equal(np.asarray(r.points), np.array(rows, dtype=float).reshape(len(rows), case["d"])),
                        "get_label.points", "rows under the mask differ")
         dumps.append(res)
+        if r is not None and spec is not None:
+            check_result_aliasing(ctx, g, before, r, tag)
         case = case_saved
     return dumps
+
+
+def check_receiver(ctx, g, before, pub_before, tag, op, case, refused):
+    """The group an operation was called on is what it was: deep digest (values of everything it holds) and what
+    the public API lists - labels, n_labels, tojson - in the same ORDER (a dict that is emptied and refilled has
+    equal values under every key and a different order). Holds after a result and after a refusal alike."""
+    dd = parameter_mutation(before, digest(g))
+    ctx.expect(
+        dd is None,
+        "%s.receiver_mutated" % tag,
+        lambda: "op %r on labels %r: %r" % (op, case["labels"], dd),
+    )
+    pub_after = RL.public_labels(g)
+    if pub_after != pub_before:
+        same_sets = sorted(pub_after["json"]) == sorted(pub_before["json"]) and sorted(pub_after["labels"]) == sorted(pub_before["labels"])
+        ctx.fail(
+            "%s.receiver_%s%s" % (tag, "label_order_changed" if same_sets else "labels_changed", ".after_refusal" if refused else ""),
+            "op %r\nlabels of the group it was called on before %r\n after %r" % (op, pub_before, pub_after),
+        )
+
+
+def _poke(r, what):
+    """Write into one component of a RESULT (what a caller owning the result may do); False when there is nothing
+    to write to."""
+    if what == "points":
+        a = r.points
+        if a.size == 0 or not a.flags.writeable:
+            return False
+        a[0, 0] += 1.0
+    elif what == "adjacency":
+        a = r.adjacency_matrix.data
+        if a.size == 0 or not a.flags.writeable:
+            return False
+        a[0] += 1
+    else:
+        ms = list(r._labels_to_masks.values()) if hasattr(r, "_labels_to_masks") else []
+        ms = [m for m in ms if m.size and m.flags.writeable]
+        if not ms:
+            return False
+        for m in ms:
+            m[0] = not m[0]
+    return True
+
+
+def check_result_aliasing(ctx, g, before, r, tag):
+    """A result is a new group: writing into its points, its adjacency data or its label masks leaves the group
+    it was derived from untouched."""
+    for what in ("points", "adjacency", "masks"):
+        if _poke(r, what):
+            dd = parameter_mutation(before, digest(g))
+            ctx.expect(dd is None, "%s.result_shares_%s_with_receiver" % (tag, what), lambda: repr(dd))
+
+
+def check_structural(case, ctx):
+    """Public reads of a constructor-built group and its copy: labels / n_labels / tojson list the labels in
+    construction order with exactly the member indices; copy() equals the original and shares nothing with it."""
+    g = RL.build_graph(case)
+    names = [nm for nm, _ in case["labels"]]
+    want_json = [[nm, [p for p, b in enumerate(m) if b]] for nm, m in case["labels"]]
+    pub = RL.public_labels(g)
+    ctx.expect(pub["labels"] == names, "labels.order", lambda: "%r, built with %r" % (pub["labels"], names))
+    ctx.expect(pub["n_labels"] == len(names), "n_labels.differs_from_len_labels", lambda: "%r vs %d" % (pub["n_labels"], len(names)))
+    ctx.expect(pub["json"] == want_json, "tojson.labels", lambda: " got %r\nwant %r" % (pub["json"], want_json))
+    before = digest(g)
+    c = g.copy()
+    ctx.expect(type(c) is type(g), "copy.type", lambda: type(c).__name__)
+    ctx.expect(RL.dump_group(c) == RL.dump_group(g), "copy.differs", lambda: RL.canon(RL.dump_group(c))[:600])
+    ctx.expect(RL.public_labels(c) == pub, "copy.differs", "public label reads differ")
+    for what in ("points", "adjacency", "masks"):
+        if _poke(c, what):
+            dd = parameter_mutation(before, digest(g))
+            ctx.expect(dd is None, "copy.shares_%s_with_original" % what, lambda: repr(dd))
+    ctx.expect(RL.public_labels(g) == pub, "copy.shares_masks_with_original", "public label reads of the original changed")
 
 
 def c_select(case, ctx):
     ctx.nontrivial(is_nontrivial(case))
     ctx.event("n_labels=%d" % len(case["labels"]))
     check_graph_case(case, ctx, derive=True)
+    check_structural(case, ctx)
+
+
+# ------------------------------------------------------------------------------------------ 1b constructors
+@st.composite
+def s_routes(draw):
+    c = draw(s_graph(ops_lo=0, ops_hi=0))
+    c["uncover"] = draw(st.integers(0, 14))
+    c["shuffle_seed"] = draw(st.integers(0, 2**16))
+    c["dup_index"] = draw(st.booleans())
+    return c
+
+
+def _constructor_routes(case, labels):
+    """(family, name, thunk, weighted) for every documented way to build the group of a case; labels = [[name,
+    mask]] (the case's own, or a non-covering variant)."""
+    from scipy.sparse import csr_matrix
+    from collections import OrderedDict
+    from menpo.shape.labelled import indices_to_masks
+
+    n, d = len(case["pts"]), case["d"]
+    rs = np.random.RandomState(case["shuffle_seed"])
+
+    def pts():
+        return np.array(case["pts"], dtype=float).reshape(n, d)
+
+    def masks():
+        return OrderedDict((nm, np.array(m, dtype=bool)) for nm, m in labels)
+
+    def indices(as_array):
+        out = OrderedDict()
+        for nm, m in labels:
+            idx = [p for p in range(n) if m[p]]
+            idx = [idx[i] for i in rs.permutation(len(idx))]  # membership is a set: any order, repeats allowed
+            if case["dup_index"] and idx:
+                idx.append(idx[0])
+            out[nm] = np.array(idx, dtype=int) if as_array else idx
+        return out
+
+    def edge_rows():
+        rows = [[i, j] if (i + j + w) % 2 else [j, i] for i, j, w in case["edges"]]
+        return [rows[i] for i in rs.permutation(len(rows))]
+
+    L = LabelledPointUndirectedGraph
+    dense = lambda: RL.adjacency_of(case)
+    routes = [
+        ("constructor", "dense", lambda: L(pts(), dense(), masks()), True),
+        ("constructor", "csr", lambda: L(pts(), csr_matrix(dense()), masks()), True),
+        ("init_from_indices_mapping", "lists+dense", lambda: L.init_from_indices_mapping(pts(), dense(), indices(False)), True),
+        ("init_from_indices_mapping", "arrays+dense", lambda: L.init_from_indices_mapping(pts(), dense(), indices(True)), True),
+        ("indices_to_masks", "lists", lambda: L(pts(), dense(), indices_to_masks(indices(False), n)), True),
+        ("indices_to_masks", "arrays", lambda: L(pts(), dense(), indices_to_masks(indices(True), n)), True),
+    ]
+    k = len(case["edges"])
+    if k >= 3:
+        # (an edge list of exactly two rows is indistinguishable from a 2 x 2 matrix for this constructor: not generated)
+        routes.append(("init_from_indices_mapping", "lists+edge_array",
+                       lambda: L.init_from_indices_mapping(pts(), np.array(edge_rows(), dtype=int), indices(False)), False))
+        routes.append(("init_from_indices_mapping", "arrays+edge_list",
+                       lambda: L.init_from_indices_mapping(pts(), edge_rows(), indices(True)), False))
+    if k >= 1:
+        routes.append(("init_from_edges", "array", lambda: L.init_from_edges(pts(), np.array(edge_rows(), dtype=int), masks()), False))
+        routes.append(("init_from_edges", "list", lambda: L.init_from_edges(pts(), edge_rows(), masks()), False))
+    else:
+        routes.append(("init_from_edges", "None", lambda: L.init_from_edges(pts(), None, masks()), False))
+        routes.append(("init_from_edges", "empty", lambda: L.init_from_edges(pts(), np.zeros((0, 2), dtype=int), masks()), False))
+    return routes
+
+
+def c_routes(case, ctx):
+    n = len(case["pts"])
+    names = [nm for nm, _ in case["labels"]]
+    overlap = any(sum(1 for _, m in case["labels"] if m[p]) >= 2 for p in range(n))
+    ctx.nontrivial(len(names) >= 2 and overlap)
+    ctx.event("n_edges%s" % (">=3" if len(case["edges"]) >= 3 else "<3"))
+    whole = RL.ref_restrict(case, [True] * n, names)
+
+    def want(weighted):
+        w = {"type": "LabelledPointUndirectedGraph", "points": whole["points"], "n_adj": n,
+             "edges": [e if weighted else [e[0], e[1], 1.0] for e in whole["edges"]],
+             "labels": names, "dict_order": names, "masks": whole["masks"], "mask_dtypes": ["bool"]}
+        return w
+
+    for fam, nm, build, weighted in _constructor_routes(case, case["labels"]):
+        ctx.event("route=%s:%s" % (fam, nm))
+        g = build()
+        got = RL.dump_group(g)
+        ctx.expect(got == want(weighted), "%s.builds_a_different_group" % fam,
+                   lambda: "route %s\n got %s\nwant %s" % (nm, RL.canon(got)[:500], RL.canon(want(weighted))[:500]))
+        pub = RL.public_labels(g)
+        ctx.expect(pub["labels"] == names and pub["json"] == [[l, [p for p in range(n) if m[p]]] for l, m in case["labels"]],
+                   "%s.builds_a_different_group" % fam, lambda: "route %s: public label reads %r" % (nm, pub))
+
+    # a group with all points under one label 'all'
+    L = LabelledPointUndirectedGraph
+    g = L.init_with_all_label(np.array(case["pts"], dtype=float).reshape(n, case["d"]), RL.adjacency_of(case))
+    got = RL.dump_group(g)
+    w = want(True)
+    w.update({"labels": ["all"], "dict_order": ["all"], "masks": [[1] * n]})
+    ctx.expect(got == w, "init_with_all_label.builds_a_different_group", lambda: RL.canon(got)[:500])
+
+    # "every point always carries at least one label" at the entry: one point taken out of every mask
+    p = case["uncover"] % n
+    bad = [[nm, [bool(b) and q != p for q, b in enumerate(m)]] for nm, m in case["labels"]]
+    for fam, nm, build, _w in _constructor_routes(case, bad):
+        try:
+            g = build()
+        except ValueError:
+            ctx.event("non_covering_refused")
+            continue
+        ctx.fail("%s.accepts_unlabelled_point" % fam, "route %s: point %d is under no label of %r" % (nm, p, bad))
+
+
+# ------------------------------------------------------------------------------------------ 2b chains
+@st.composite
+def s_absop(draw):
+    """An operation described relative to whatever group it will meet (label positions modulo the number of labels,
+    point indices modulo the number of points): resolved by ``resolve_op`` when the chain reaches it."""
+    kind = draw(st.sampled_from(["with", "with", "without", "without", "get", "add", "add", "add", "remove", "remove",
+                                 "remove", "mask"]))
+    op = {"op": kind, "picks": draw(st.lists(st.integers(0, 11), min_size=1, max_size=6)),
+          "stay": draw(st.sampled_from([False, False, True]))}
+    if kind in ("with", "without"):
+        op["order"] = draw(st.sampled_from(["original", "original", "drawn", "dup"]))
+        op["form"] = draw(st.sampled_from(["list", "list", "tuple", "str"]))
+    elif kind == "add":
+        op["name"] = draw(s_name())
+        op["existing"] = draw(st.sampled_from([False] * 4 + [True]))
+        op["indices"] = draw(st.one_of(st.just("all"), st.lists(st.integers(0, 29), max_size=12)))
+        op["as_array"] = draw(st.booleans())
+    elif kind == "mask":
+        op["bits"] = draw(st.lists(st.booleans(), min_size=15, max_size=15))
+    return op
+
+
+def resolve_op(aop, case):
+    names = [nm for nm, _ in case["labels"]]
+    k, n = len(names), len(case["pts"])
+    kind = aop["op"]
+    if kind == "without" and k == 1:
+        kind = "with"
+    if kind in ("with", "without"):
+        sub = []
+        for p in aop["picks"]:
+            if p % k not in sub:
+                sub.append(p % k)
+        if kind == "without" and len(sub) == k:
+            sub = sub[:-1]
+        if aop["order"] != "drawn":
+            sub = sorted(sub)
+        labels = [names[i] for i in sub]
+        if aop["order"] == "dup":
+            labels.insert(1, labels[0])
+        return {"op": kind, "labels": labels, "as_str": len(labels) == 1 and aop["form"] == "str",
+                "as_tuple": aop["form"] == "tuple"}
+    if kind in ("get", "remove"):
+        return {"op": kind, "label": names[aop["picks"][0] % k]}
+    if kind == "add":
+        label = names[aop["picks"][0] % k] if aop["existing"] else fresh_name(aop["name"], names)
+        idx = list(range(n)) if aop["indices"] == "all" else [i % n for i in aop["indices"]]
+        return {"op": "add", "label": label, "indices": idx, "as_array": aop["as_array"]}
+    return {"op": "mask", "mask": [bool(b) for b in (aop["bits"] * (n // 15 + 1))[:n]]}
+
+
+@st.composite
+def s_chain(draw):
+    c = draw(s_graph(ops_lo=0, ops_hi=0))
+    c["chain"] = draw(st.lists(s_absop(), min_size=4, max_size=9))
+    return c
+
+
+def c_chain(case, ctx):
+    """Operations folded over ONE evolving group: each labelled result becomes the receiver of the next operation
+    (unless the operation is marked 'stay': then the next one runs on the same receiver again); a refused operation
+    and an unlabelled result (get_label, from_mask) leave the chain on the group it was on. Every step is judged
+    against the set model of the CURRENT group, and every group the chain went through is re-read at the end."""
+    cur = dict((k, case[k]) for k in ("d", "pts", "edges", "labels"))
+    g = RL.build_graph(cur)
+    visited = [(g, digest(g), RL.public_labels(g), 0)]
+    depth = 0
+    on_derived = 0
+    for step, aop in enumerate(case["chain"]):
+        op = resolve_op(aop, cur)
+        tag = OPNAME[op["op"]]
+        spec = RL.ref_op(cur, op)
+        if spec is None:
+            ctx.event("out_of_domain:" + tag)
+            continue
+        before = digest(g)
+        pub_before = RL.public_labels(g)
+        r, res = RL.apply_op(g, op)
+        check_receiver(ctx, g, before, pub_before, tag, op, cur, "err" in res)
+        n_fail = len(ctx.fails)
+        compare(ctx, cur, op, spec, res)
+        if depth:
+            on_derived += 1
+        if len(ctx.fails) > n_fail:
+            ctx.event("chain_stopped_at_first_failure")
+            break  # what follows would be judged against a model the library has already left
+        if r is not None and "labels" in res["ok"] and not aop["stay"]:
+            cur = RL.case_from_dump(cur, res["ok"])
+            g = r
+            depth += 1
+            visited.append((g, digest(g), RL.public_labels(g), depth))
+    ctx.event("chain_depth=%d" % min(depth, 6))
+    ctx.nontrivial(depth >= 2 and on_derived >= 2)
+    for obj, dg, pub, at in visited:
+        dd = parameter_mutation(dg, digest(obj))
+        ctx.expect(dd is None, "chain.earlier_group_mutated", lambda: "group at depth %d: %r" % (at, dd))
+        ctx.expect(RL.public_labels(obj) == pub, "chain.earlier_group_labels_changed",
+                   lambda: "group at depth %d: %r -> %r" % (at, pub, RL.public_labels(obj)))
 
 
 # ------------------------------------------------------------------------------------------ 3
@@ -472,7 +909,8 @@ def expected_size(nm):
 
 NAMES = discover_labellers()
 SIZE = dict((nm, expected_size(nm)) for nm in NAMES)
-BASE_KINDS = ["ndarray", "PointCloud", "LabelledPointUndirectedGraph"]
+BASE_KINDS = ["ndarray", "PointCloud", "LabelledPointUndirectedGraph", "PointUndirectedGraph", "PointDirectedGraph",
+              "LabelledNoWholeLabel"]
 T_KINDS = list(objs.PLAIN_HOMOG_KINDS)
 
 
@@ -497,10 +935,25 @@ def build_input(kind, pts, d):
     adj = np.zeros((n, n))
     for i in range(0, n - 1, 2):
         adj[i, i + 1] = adj[i + 1, i] = 1
+    if kind == "PointUndirectedGraph":
+        return PointUndirectedGraph(p, adj)
+    if kind == "PointDirectedGraph":
+        dadj = np.zeros((n, n))
+        for i in range(0, n - 1):
+            if i % 3 != 2:
+                dadj[i + 1, i] = 1  # edges pointing down the index order, some vertices isolated
+        return PointDirectedGraph(p, dadj)
     l2m = OrderedDict()
-    l2m["whole"] = np.ones(n, dtype=bool)
     half = np.zeros(n, dtype=bool)
     half[: max(1, n // 2)] = True
+    if kind == "LabelledNoWholeLabel":
+        # no label spans all points: two overlapping parts
+        rest = ~half
+        rest[: max(1, n // 4)] = True
+        l2m["rest"] = rest
+        l2m["first half"] = half
+        return LabelledPointUndirectedGraph(p, adj, l2m)
+    l2m["whole"] = np.ones(n, dtype=bool)
     l2m["first half"] = half
     return LabelledPointUndirectedGraph(p, adj, l2m)
 
@@ -508,8 +961,8 @@ def build_input(kind, pts, d):
 def can_build(kind, m):
     if kind == "TriMesh":
         return m >= 3
-    if kind == "LabelledPointUndirectedGraph":
-        return m >= 1
+    if "Graph" in kind or kind == "LabelledNoWholeLabel":
+        return m >= 1  # a graph needs a vertex
     return True
 
 
@@ -666,6 +1119,48 @@ def check_wrong_size(ctx, nm, kind, d, m, seed):
     ctx.expect(parameter_mutation(before, digest(x)) is None, "labeller.input_mutated.wrong_size", where)
 
 
+HOSTS = ["PointCloud", "Image"]
+GROUP_KINDS = [k for k in BASE_KINDS if k != "ndarray"]
+
+
+def check_attach(ctx, nm, d, pts, host, group_kind, wrong_m, wrong_seed):
+    """labeller(landmarkable, group, f): re-labels the group stored under ``group`` on a landmarkable object and
+    attaches the outcome under f.group_label; returns the same object."""
+    f = getattr(ML, nm)
+    n = SIZE[nm]
+    where = "%s via labeller() on %s, group stored as %s, %d-D" % (nm, host, group_kind, d)
+    if host == "Image" and d == 2:
+        obj = Image(np.zeros((1, 12, 12)))
+    else:
+        host = "PointCloud"
+        obj = PointCloud(np.arange(3.0 * d).reshape(3, d))
+    ctx.event("attach_host=%s" % host)
+    obj.landmarks["PTS"] = build_input(group_kind, pts, d)
+    src_before = digest(obj.landmarks["PTS"])
+    back = menpo_labeller(obj, "PTS", f)
+    ctx.expect(back is obj, "labeller_attach.returns_another_object", where)
+    keys = list(obj.landmarks.keys())
+    if ctx.expect(keys == ["PTS", f.group_label], "labeller_attach.groups", lambda: "%s: groups %r, want %r" % (where, keys, ["PTS", f.group_label])):
+        want = dump_labelled(f(PointCloud(np.array(pts, dtype=float).reshape(n, d))))
+        got = dump_labelled(obj.landmarks[f.group_label])
+        ctx.expect(got == want, "labeller_attach.group_differs_from_direct_call", lambda: "%s\n got %s\nwant %s" % (where, RL.canon(got)[:400], RL.canon(want)[:400]))
+    ctx.expect(parameter_mutation(src_before, digest(obj.landmarks["PTS"])) is None, "labeller_attach.source_group_changed", where)
+    if wrong_m != n and can_build(group_kind, wrong_m) and wrong_m >= 1:
+        wpts = lattice_points(np.random.RandomState(wrong_seed), wrong_m, d)
+        obj.landmarks["OTHER"] = build_input(group_kind, wpts, d)
+        keys_before = list(obj.landmarks.keys())
+        lm_before = digest(obj.landmarks)
+        try:
+            menpo_labeller(obj, "OTHER", f)
+        except LabellingError:
+            ctx.event("attach_wrong_size_refused")
+        else:
+            ctx.fail("labeller_attach.wrong_size_accepted", "%s: a group of %d points (expects %d)" % (where, wrong_m, n))
+        ctx.expect(list(obj.landmarks.keys()) == keys_before, "labeller_attach.refusal_leaves_a_group",
+                   lambda: "%s: groups %r -> %r" % (where, keys_before, list(obj.landmarks.keys())))
+        ctx.expect(parameter_mutation(lm_before, digest(obj.landmarks)) is None, "labeller_attach.refusal_changes_landmarks", where)
+
+
 def rand_tcase(rs, d):
     kind = T_KINDS[int(rs.randint(0, len(T_KINDS)))]
 
@@ -698,7 +1193,7 @@ def rand_tcase(rs, d):
 
 # ------------------------------------------------------------------------------------------ 4a grid
 def grid(tier):
-    reps = 3 if tier == "quick" else 100
+    reps = 4 if tier == "quick" else 100
     cases = []
     for nm in NAMES:
         for kind in kinds_for(nm):
@@ -708,6 +1203,8 @@ def grid(tier):
                 cases.append({"mode": "wrong", "name": nm, "kind": kind, "d": d, "seed": 0})
         for d in (2, 3):
             cases.append({"mode": "sweep", "name": nm, "d": d})
+            for gi, gk in enumerate(GROUP_KINDS):
+                cases.append({"mode": "attach", "name": nm, "d": d, "host": HOSTS[(gi + d) % 2], "group_kind": gk, "seed": gi})
     return cases
 
 
@@ -718,8 +1215,27 @@ def c_grid(case, ctx):
     if case["mode"] == "ok":
         ctx.event("cell=%s/%s/%dD" % (nm, case["kind"], d))
         rs = np.random.RandomState(1000003 * case["seed"] + 7919 * NAMES.index(nm) + d)
-        pts = lattice_points(rs, n, d, extent=[10.0, 1.0, 20.0][case["seed"] % 3])
-        check_labeller(ctx, nm, case["kind"], d, pts, rand_tcase(rs, d))
+        # seeds cycle through the point layouts; odd seeds get an axis-reversing transform
+        layout = rand_layout(rs, LAYOUTS[case["seed"] % len(LAYOUTS)])
+        # the input kinds of one labeller share the direction-free part; axis and direction of the layout walk through
+        # all (axis, direction) combinations over the kinds
+        ki = kinds_for(nm).index(case["kind"]) + case["seed"] // len(LAYOUTS)
+        layout["axis"], layout["flip"] = ki % d, bool((ki // d) % 2)
+        pts = layout_points(layout, n, d, extent=[10.0, 1.0, 20.0][case["seed"] % 3])
+        if case["seed"] % 2:
+            t = reversing_tcase(d, REVERSING_FORMS[int(rs.randint(0, len(REVERSING_FORMS)))], int(rs.randint(0, 3)),
+                                int(rs.randint(1, 4)), [int(v) for v in rs.randint(-5, 6, size=3)],
+                                [float(v) for v in rs.choice([-3.0, -1.0, -0.5, 0.5, 2.0], size=3)])
+        else:
+            t = rand_tcase(rs, d)
+        ctx.event("layout=%s" % layout["kind"])
+        ctx.event("T=%s" % t.get("form", t["kind"]))
+        check_labeller(ctx, nm, case["kind"], d, pts, t)
+    elif case["mode"] == "attach":
+        ctx.event("cell=attach/%s/%dD" % (nm, d))
+        rs = np.random.RandomState(15485863 + 7919 * NAMES.index(nm) + 31 * case["seed"] + d)
+        pts = layout_points(rand_layout(rs, LAYOUTS[case["seed"] % len(LAYOUTS)]), n, d)
+        check_attach(ctx, nm, d, pts, case["host"], case["group_kind"], [n - 1, n + 1, 2 * n, 1, max(1, n // 2)][case["seed"] % 5], 77 + d)
     elif case["mode"] == "wrong":
         for m in (n - 1, n + 1, 0, 2 * n):
             check_wrong_size(ctx, nm, case["kind"], d, m, 31 * m + d)
@@ -751,9 +1267,12 @@ def s_labeller():
             "name": nm,
             "kind": kind,
             "d": d,
-            "pts": draw(gen.points_case(n=n, d=d, extent=draw(st.sampled_from([1.0, 10.0])))),
+            "layout": draw(s_layout()),
+            "extent": draw(st.sampled_from([1.0, 10.0])),
             "shift": draw(gen.vec(d, -10, 10)),
-            "t": draw(objs.homog_case(d=d, kinds=T_KINDS)),
+            "t": draw(s_tcase(d)),
+            "host": draw(st.sampled_from(HOSTS)),
+            "group_kind": draw(st.sampled_from(GROUP_KINDS)),
             "wrong_kind": draw(st.sampled_from(kinds_for(nm))),
             "wrong_m": draw(st.one_of(st.sampled_from([n - 1, n + 1, 0, 2 * n]), st.integers(0, 200))),
             "wrong_seed": draw(st.integers(0, 2**16)),
@@ -765,13 +1284,15 @@ def s_labeller():
 
 def c_labeller(case, ctx):
     nm, d = case["name"], case["d"]
-    pts = (gen.arr(case["pts"]) + gen.arr(case["shift"])).tolist()
+    pts = (gen.arr(layout_points(case["layout"], SIZE[nm], d, case["extent"])) + gen.arr(case["shift"])).tolist()
     ctx.nontrivial(True)
     ctx.event("family=%s" % nm.split("_")[0])
     ctx.event("kind=%s" % case["kind"])
-    ctx.event("T=%s" % case["t"]["kind"])
+    ctx.event("layout=%s" % case["layout"]["kind"])
+    ctx.event("T=%s" % case["t"].get("form", case["t"]["kind"]))
     check_labeller(ctx, nm, case["kind"], d, pts, case["t"])
     check_wrong_size(ctx, nm, case["wrong_kind"], d, case["wrong_m"], case["wrong_seed"])
+    check_attach(ctx, nm, d, pts, case["host"], case["group_kind"], case["wrong_m"], case["wrong_seed"])
 
 
 N_HASH_CLAUSES = 8
@@ -782,10 +1303,21 @@ def evidence_extra(tier):
 
 
 CLAUSES = [
-    Clause("select", c_select, s_select, quick=2000, thorough=40000, nt_floor=0.3,
+    Clause("select", c_select, s_select, quick=1500, thorough=40000, nt_floor=0.3,
            rule="one labelled graph with 3..6 operations against the set model (points, induced weighted edges, "
                 "restricted masks, label order, refusals, receiver digest, coverage invariant); non-trivial: >= 2 labels, "
                 "overlapping masks, a selection keeping a proper non-empty label subset"),
+    Clause("constructors", c_routes, s_routes, quick=300, thorough=10000, nt_floor=0.3,
+           rule="one graph case built through every documented route (constructor with dense / csr adjacency, "
+                "init_from_indices_mapping with index lists / arrays and dense adjacency / edge list of >= 3 rows, "
+                "indices_to_masks, init_from_edges with array / list / None, init_with_all_label): all dumps equal the "
+                "model (edge lists carry no weights: weight 1); the same routes with one point taken out of every mask "
+                "must raise ValueError; non-trivial: >= 2 labels with overlapping masks"),
+    Clause("chain", c_chain, s_chain, quick=1000, thorough=30000, nt_floor=0.3,
+           rule="4..9 operations folded over one evolving group (each labelled result is the next receiver, or the same "
+                "receiver again), each step against the set model of the current group, receiver digest and public label "
+                "order after results and refusals, all visited groups re-read at the end; non-trivial: the chain reached "
+                "depth >= 2 and >= 2 operations ran on a derived group"),
 ] + [
     # the runner gives one worker per 20 cases of a clause; a batch case costs a round of interpreters, so the
     # batches are spread over N_HASH_CLAUSES identically defined clauses (independent seeds) to run side by side
